@@ -402,15 +402,17 @@ class Engine(ExprMixin, CallMixin, StmtMixin):
             if z3.is_rational_value(sv):
                 return {"lit": float(sv.as_fraction())}
             return {"expr": str(v)}
-        from .strings import Text, DecStr
+        from .strings import Text, DecStr, DigitField
         from .values import IntStr
-        if isinstance(v, (Text, IntStr, DecStr)):
+        if isinstance(v, (Text, IntStr, DecStr, DigitField)):
             out = []
             for pc in Text.of(v).pieces:
                 if isinstance(pc, str):
                     out.append({"lit": pc})
                 elif isinstance(pc, IntStr):
                     out.append({"intstr": self.describe(pc.term, st)})
+                elif isinstance(pc, DigitField):
+                    out.append({"digits": self.describe(pc.var, st), "width": pc.width})
                 else:
                     out.append({"dec": self.describe(pc.value, st), "mark": pc.mark})
             return {"text": out}
